@@ -356,6 +356,11 @@ func sortedMapKeys[T any](m map[string]T) []string {
 func (w *world) nodeReactor(action k8stesting.Action) (bool, runtime.Object, error) {
 	if action.GetVerb() == "patch" && action.GetResource().Resource == "nodes" {
 		pa := action.(k8stesting.PatchAction)
+		// a cache update announced for this item arrives, at the latest, just before its first write
+		if w.refreshOnSecondGet != "" && !w.refreshed {
+			w.refreshNodeCache(w.refreshOnSecondGet)
+			w.refreshed = true
+		}
 		var body struct {
 			Spec struct {
 				PodCIDR  string   `json:"podCIDR"`
@@ -543,6 +548,10 @@ func (w *world) poolSnap(s *cidrset.MultiCIDRSet) string {
 		return "-"
 	}
 	count, cursor, _, keys := s.VerifState()
+	if len(keys) > 5000 {
+		// only pools outside the modelled domain (robustness stream) get this large: the block list is not printed
+		return fmt.Sprintf("%s@%d@%d@", s.Label, count, cursor)
+	}
 	var idx []int
 	var bad []string
 	for _, k := range keys {
